@@ -553,6 +553,19 @@ fn bigint_cmd(t: &[&str]) -> String {
             let (v, n) = bigint::u64_to_hi64_2(parse_u64(t[1]), parse_u64(t[2]));
             format!("{} {}", v, n as u8)
         },
+        // the 32-bit-limb helpers are compiled on every target
+        "u32_to_hi64_1" => {
+            let (v, n) = bigint::u32_to_hi64_1(parse_u64(t[1]) as u32);
+            format!("{} {}", v, n as u8)
+        },
+        "u32_to_hi64_2" => {
+            let (v, n) = bigint::u32_to_hi64_2(parse_u64(t[1]) as u32, parse_u64(t[2]) as u32);
+            format!("{} {}", v, n as u8)
+        },
+        "u32_to_hi64_3" => {
+            let (v, n) = bigint::u32_to_hi64_3(parse_u64(t[1]) as u32, parse_u64(t[2]) as u32, parse_u64(t[3]) as u32);
+            format!("{} {}", v, n as u8)
+        },
         "mulassign" => {
             let x = vecarg!(1);
             let y = vecarg!(2);
